@@ -265,8 +265,8 @@ def plan(tier: str, seed: int):
     rest = [v for v in variants if not is_prio(v)]
     singles = [v for v in rest if "+" not in v[3]]
     combos = [v for v in rest if "+" in v[3]]
-    # ... and a seeded sample of the others (quick 550 + 400; thorough 8000 + 4000: all 49 004 would take 5 h)
-    ns, nc = (550, 400) if tier == "quick" else (8000, 4000)
+    # ... and a seeded sample of the others (quick 550 + 400; thorough 5000 + 2500: all 49 004 would take 5 h)
+    ns, nc = (550, 400) if tier == "quick" else (5000, 2500)
     variants = prio + rnd.sample(singles, min(ns, len(singles))) + rnd.sample(combos, min(nc, len(combos)))
     tasks = []
     for rel, rname, path, kind, entries in variants:
@@ -343,7 +343,7 @@ def main(tier: str, seed: int, args) -> int:
         rule="program = (bundled grammar, rule, sub-expression site, rewrite kind); each is decided on corpus inputs with a window of 1-2 symbolic characters (replaced / inserted at seeded offsets) and on whole symbolic inputs of length <= 2/3, original vs rewritten in the same mode, four modes; one case = one joint path",
         assumptions=[
             "NEVER is U+10FFFF U+10FFFE and symbolic characters are assumed != U+10FFFF",
-            "every variant at every site of the two bundled stack grammars (lists.pest, surround.pest), plus a seeded sample of the others: quick 550 single + 400 combined, thorough 8000 + 4000 (VERIF_SEED selects which); windows wider than 2 and documents longer than 120 characters are outside the claim",
+            "every variant at every site of the two bundled stack grammars (lists.pest, surround.pest), plus a seeded sample of the others: quick 550 single + 400 combined, thorough 5000 + 2500 (VERIF_SEED selects which); windows wider than 2 and documents longer than 120 characters are outside the claim",
             "failure positions / expected sets are not compared (the rewrites add failed attempts by design); outcome and tree are",
             "rewrites are applied to the Expression tree of a fresh pest.grammar.parse() and given to the public Parser(rules, doc, optimizer=...) constructor",
         ],
